@@ -140,3 +140,66 @@ def inject_schedule(sim, seed, identity=False):
         slot.pending = pend
     st.pending = pend
     return procs
+
+
+def install_construction_contracts():
+    """Post-conditions on Const(...) and Shape.cast(range) (C10), armed wherever the harness runs.
+
+    Plain wrappers are used instead of icontract decorators: same effect (entry/exit checks on the
+    real functions, evaluation counters), no third-party install needed in setup_cmd."""
+    if _installed.get("contracts"):
+        return
+    from amaranth.hdl import _ast
+    COUNTERS.setdefault("contract_const", 0)
+    COUNTERS.setdefault("contract_shape_cast_range", 0)
+    try:
+        C = _ast.Const
+        orig_init = C.__init__
+        orig_cast = _ast.Shape.cast
+    except AttributeError as e:
+        raise MissingTarget(str(e))
+    import enum as _enum
+    import operator
+
+    def __init__(self, value, shape=None, **kw):
+        orig_init(self, value, shape, **kw)
+        COUNTERS["contract_const"] += 1
+        try:
+            v = value.value if isinstance(value, _enum.Enum) else value
+            v = int(operator.index(v))
+            sh = self._shape
+            ok = fits(self._value, sh.width, sh.signed) and (self._value - v) % (1 << sh.width) == 0
+        except Exception:
+            return
+        if not ok and len(VIOLATIONS) < 20:
+            VIOLATIONS.append({"mechanism": "contract:const-not-normalised",
+                               "detail": {"value": v, "shape": repr(self._shape), "stored": self._value}})
+
+    def cast(obj, *, src_loc_at=0):
+        r = orig_cast(obj, src_loc_at=src_loc_at + 1)
+        if isinstance(obj, range):
+            COUNTERS["contract_shape_cast_range"] += 1
+            exp = range_shape(obj)
+            if (r.width, r.signed) != exp and len(VIOLATIONS) < 20:
+                VIOLATIONS.append({"mechanism": "contract:range-shape-not-minimal",
+                                   "detail": {"range": repr(obj), "cast": repr(r), "expected": list(exp)}})
+        return r
+
+    C.__init__ = __init__
+    _ast.Shape.cast = staticmethod(cast)
+    _installed["contracts"] = True
+
+
+def range_shape(r):
+    """Definitional: narrowest shape holding every element; signed iff some element negative;
+    empty and {0} give width 0."""
+    if not r:  # (bool(range) works for ranges longer than sys.maxsize, len() does not)
+        return (0, False)
+    lo, hi = min(r[0], r[-1]), max(r[0], r[-1])
+    if lo == hi == 0:
+        return (0, False)
+    signed = lo < 0
+    w = 0
+    while not (fits(lo, w, signed) and fits(hi, w, signed)):
+        w += 1
+    return (w, signed)
